@@ -273,15 +273,15 @@ Qed.
 Lemma dist_formula d : (dist_of d == inject_Z d * (343 # 1) / (20000 # 1))%Q.
 Proof. unfold dist_of. field. Qed.
 
-Lemma u_loop_S k drift echo st c np :
-  u_loop (S k) drift echo st c np =
-  let a := u_attempt drift echo st c np in
+Lemma u_loop_S W k drift echo st c np :
+  u_loop W (S k) drift echo st c np =
+  let a := u_attempt W drift echo st c np in
   if 0 <? pulse_result (echo np) then
     {| r_val := dist_of (pulse_result (echo np));
        r_st := {| last_trig := a_stamp a; last_dist := dist_of (pulse_result (echo np)); has_dist := true |};
        r_clk := a_clk a; r_np := S np; r_evs := attempt_events a |}
   else
-    let r := u_loop k drift echo
+    let r := u_loop W k drift echo
                {| last_trig := a_stamp a; last_dist := last_dist st; has_dist := has_dist st |}
                (a_clk a) (S np) in
     {| r_val := r_val r; r_st := r_st r; r_clk := r_clk r; r_np := r_np r;
@@ -289,11 +289,11 @@ Lemma u_loop_S k drift echo st c np :
 Proof. reflexivity. Qed.
 
 (* ---- distance formula: the first attempt that does not time out decides *)
-Lemma u_loop_success drift echo n : forall st c np j,
+Lemma u_loop_success W drift echo n : forall st c np j,
   (j < n)%nat ->
   (forall i, (i < j)%nat -> timed_out echo (np + i)) ->
   0 < pulse_result (echo (np + j)%nat) ->
-  r_val (u_loop n drift echo st c np) = dist_of (pulse_result (echo (np + j)%nat)).
+  r_val (u_loop W n drift echo st c np) = dist_of (pulse_result (echo (np + j)%nat)).
 Proof.
   induction n as [|k IH]; intros st c np j Hj Hto Hgood; [lia|].
   rewrite u_loop_S. cbv zeta.
@@ -307,14 +307,14 @@ Proof.
     intros i Hi. specialize (Hto (S i) ltac:(lia)). rewrite <- Nat.add_succ_comm in Hto. exact Hto.
 Qed.
 
-Lemma distance_formula drift echo st c np j e :
+Lemma distance_formula W drift echo st c np j e :
   (j < 3)%nat ->
   (forall i, (i < j)%nat -> timed_out echo (np + i)) ->
   echo (np + j)%nat = e -> 0 < e <= 30000 ->
-  (r_val (u_measure drift echo st c np) == inject_Z e * (343 # 1) / (20000 # 1))%Q.
+  (r_val (u_measure W drift echo st c np) == inject_Z e * (343 # 1) / (20000 # 1))%Q.
 Proof.
   intros Hj Hto He Hr. unfold u_measure, max_attempts.
-  rewrite (u_loop_success drift echo 3 st c np j Hj Hto).
+  rewrite (u_loop_success W drift echo 3 st c np j Hj Hto).
   - rewrite He, pulse_result_id by exact Hr. apply dist_formula.
   - rewrite He, pulse_result_id by exact Hr. lia.
 Qed.
@@ -326,40 +326,40 @@ Proof. unfold trigs. apply flat_map_app. Qed.
 Lemma trigs_attempt a : trigs (attempt_events a) = [(a_t a, a_dur a, a_stamp a)].
 Proof. unfold attempt_events, trigs. destruct (a_delay a); reflexivity. Qed.
 
-Lemma a_dur_eq drift echo st c np : a_dur (u_attempt drift echo st c np) = pulse_result (echo np).
+Lemma a_dur_eq W drift echo st c np : a_dur (u_attempt W drift echo st c np) = pulse_result (echo np).
 Proof. reflexivity. Qed.
 
-Lemma u_loop_count drift echo n : forall st c np,
-  (length (trigs (r_evs (u_loop n drift echo st c np))) <= n)%nat /\
-  ((0 < n)%nat -> (1 <= length (trigs (r_evs (u_loop n drift echo st c np))))%nat) /\
-  r_np (u_loop n drift echo st c np) = (np + length (trigs (r_evs (u_loop n drift echo st c np))))%nat.
+Lemma u_loop_count W drift echo n : forall st c np,
+  (length (trigs (r_evs (u_loop W n drift echo st c np))) <= n)%nat /\
+  ((0 < n)%nat -> (1 <= length (trigs (r_evs (u_loop W n drift echo st c np))))%nat) /\
+  r_np (u_loop W n drift echo st c np) = (np + length (trigs (r_evs (u_loop W n drift echo st c np))))%nat.
 Proof.
   induction n as [|k IH]; intros st c np.
   - cbn. repeat split; lia.
   - rewrite u_loop_S. cbv zeta. destruct (0 <? pulse_result (echo np)).
     + cbn [r_evs r_np]. rewrite trigs_attempt. cbn [length]. repeat split; lia.
     + cbn [r_evs r_np]. rewrite trigs_app, trigs_attempt. cbn [app length].
-      match goal with |- context [u_loop k drift echo ?s ?cc ?n] => destruct (IH s cc n) as (H1 & H2 & H3) end.
+      match goal with |- context [u_loop W k drift echo ?s ?cc ?n] => destruct (IH s cc n) as (H1 & H2 & H3) end.
       rewrite H3. repeat split; lia.
 Qed.
 
-Lemma attempts_le_3 drift echo st c np :
-  (1 <= length (trigs (r_evs (u_measure drift echo st c np))) <= 3)%nat.
+Lemma attempts_le_3 W drift echo st c np :
+  (1 <= length (trigs (r_evs (u_measure W drift echo st c np))) <= 3)%nat.
 Proof.
-  destruct (u_loop_count drift echo 3 st c np) as (H1 & H2 & _).
+  destruct (u_loop_count W drift echo 3 st c np) as (H1 & H2 & _).
   unfold u_measure, max_attempts. split; [apply H2; lia|exact H1].
 Qed.
 
-Lemma pulses_consumed drift echo st c np :
-  r_np (u_measure drift echo st c np) =
-  (np + length (trigs (r_evs (u_measure drift echo st c np))))%nat.
-Proof. apply (u_loop_count drift echo 3 st c np). Qed.
+Lemma pulses_consumed W drift echo st c np :
+  r_np (u_measure W drift echo st c np) =
+  (np + length (trigs (r_evs (u_measure W drift echo st c np))))%nat.
+Proof. apply (u_loop_count W drift echo 3 st c np). Qed.
 
 (* ---- fallback *)
-Lemma u_loop_timeouts drift echo n : forall st c np,
+Lemma u_loop_timeouts W drift echo n : forall st c np,
   (forall i, (i < n)%nat -> timed_out echo (np + i)) ->
-  r_val (u_loop n drift echo st c np) = (if has_dist st then last_dist st else 400 # 1) /\
-  length (trigs (r_evs (u_loop n drift echo st c np))) = n.
+  r_val (u_loop W n drift echo st c np) = (if has_dist st then last_dist st else 400 # 1) /\
+  length (trigs (r_evs (u_loop W n drift echo st c np))) = n.
 Proof.
   induction n as [|k IH]; intros st c np Hto; [cbn; auto|].
   rewrite u_loop_S. cbv zeta.
@@ -367,15 +367,15 @@ Proof.
   { specialize (Hto 0%nat ltac:(lia)). rewrite Nat.add_0_r in Hto. exact Hto. }
   rewrite H0. cbn [Z.ltb Z.compare r_val r_evs].
   rewrite trigs_app, trigs_attempt. cbn [app length].
-  match goal with |- context [u_loop k drift echo ?s ?cc ?n] => destruct (IH s cc n) as (H1 & H2) end.
+  match goal with |- context [u_loop W k drift echo ?s ?cc ?n] => destruct (IH s cc n) as (H1 & H2) end.
   - intros i Hi. specialize (Hto (S i) ltac:(lia)). rewrite <- Nat.add_succ_comm in Hto. exact Hto.
   - rewrite H1, H2. cbn [has_dist last_dist]. auto.
 Qed.
 
-Lemma fallback_call drift echo st c np :
+Lemma fallback_call W drift echo st c np :
   timed_out echo np -> timed_out echo (S np) -> timed_out echo (S (S np)) ->
-  r_val (u_measure drift echo st c np) = (if has_dist st then last_dist st else 400 # 1) /\
-  length (trigs (r_evs (u_measure drift echo st c np))) = 3%nat.
+  r_val (u_measure W drift echo st c np) = (if has_dist st then last_dist st else 400 # 1) /\
+  length (trigs (r_evs (u_measure W drift echo st c np))) = 3%nat.
 Proof.
   intros H0 H1 H2. apply u_loop_timeouts. intros i Hi.
   destruct i as [|[|[|i]]]; try lia; rewrite ?Nat.add_0_r, ?Nat.add_1_r, ?Nat.add_succ_r, ?Nat.add_0_r; assumption.
@@ -387,9 +387,9 @@ Definition good_state (echo : nat -> Z) (np : nat) (st : ustate) : Prop :=
   | None => has_dist st = false
   end.
 
-Lemma u_loop_good drift echo n : forall st c np,
+Lemma u_loop_good W drift echo n : forall st c np,
   good_state echo np st ->
-  good_state echo (r_np (u_loop n drift echo st c np)) (r_st (u_loop n drift echo st c np)).
+  good_state echo (r_np (u_loop W n drift echo st c np)) (r_st (u_loop W n drift echo st c np)).
 Proof.
   induction n as [|k IH]; intros st c np Hg; [exact Hg|].
   rewrite u_loop_S. cbv zeta. destruct (0 <? pulse_result (echo np)) eqn:E.
@@ -397,7 +397,7 @@ Proof.
   - cbn [r_np r_st]. apply IH. unfold good_state in *. cbn [last_good]. rewrite E. exact Hg.
 Qed.
 
-Lemma u_calls_fallback drift echo : forall gs st c np,
+Lemma u_calls_fallback W drift echo : forall gs st c np,
   good_state echo np st ->
   Forall (fun x =>
             timed_out echo (fst x) -> timed_out echo (S (fst x)) -> timed_out echo (S (S (fst x))) ->
@@ -406,18 +406,18 @@ Lemma u_calls_fallback drift echo : forall gs st c np,
              | Some e => inject_Z e * (343 # 1) / (20000 # 1)
              | None => 400 # 1
              end)%Q)
-         (u_calls drift echo st c np gs).
+         (u_calls W drift echo st c np gs).
 Proof.
   induction gs as [|g r IH]; intros st c np Hg; cbn [u_calls]; constructor.
   - cbn [fst snd]. intros H0 H1 H2.
-    destruct (fallback_call drift echo st (pass_gap c g) np H0 H1 H2) as [Hv _]. rewrite Hv.
+    destruct (fallback_call W drift echo st (pass_gap c g) np H0 H1 H2) as [Hv _]. rewrite Hv.
     unfold good_state in Hg. destruct (last_good echo np) as [e|].
     + destruct Hg as [Hh Hl]. rewrite Hh, Hl. apply dist_formula.
     + rewrite Hg. reflexivity.
   - apply IH. apply u_loop_good. exact Hg.
 Qed.
 
-Lemma fallback_history drift echo c0 gs :
+Lemma fallback_history W drift echo c0 gs :
   Forall (fun x =>
             timed_out echo (fst x) -> timed_out echo (S (fst x)) -> timed_out echo (S (S (fst x))) ->
             (r_val (snd x) ==
@@ -425,10 +425,12 @@ Lemma fallback_history drift echo c0 gs :
              | Some e => inject_Z e * (343 # 1) / (20000 # 1)
              | None => 400 # 1
              end)%Q)
-         (u_calls drift echo u_init c0 0 gs).
+         (u_calls W drift echo u_init c0 0 gs).
 Proof. apply u_calls_fallback. reflexivity. Qed.
 
 (* ---- back-off *)
+(* The helper only ever sees the wrapped clock; the statement is about true time.  The invariant
+   carries the true millisecond count [T] at which the stored unsigned long was sampled. *)
 Definition trig := (Z * Z * Z)%type.
 
 Fixpoint chain (prev : option trig) (l : list trig) : Prop :=
@@ -459,91 +461,191 @@ Qed.
 Lemma chain_all_spaced l : chain None l -> all_spaced l.
 Proof. destruct l as [|a r]; [intros _; exact I|]. intros [_ H]. apply all_spaced_cons. exact H. Qed.
 
-Definition inv (prev : option trig) (st : ustate) (c : clock) : Prop :=
-  0 <= last_trig st <= millis c /\
+Lemma modulus_pos W : 0 <= W -> 0 < modulus W.
+Proof. intro H. unfold modulus. apply Z.pow_pos_nonneg; lia. Qed.
+
+(* unsigned subtraction of two wrapped clock readings = the true difference, wrapped; and a wrapped
+   non-negative number never exceeds the number *)
+Lemma wrapped_elapsed W now T :
+  0 <= W -> T <= now ->
+  0 <= wrap W (wrap W now - wrap W T) <= now - T.
+Proof.
+  intros HW Hle. pose proof (modulus_pos W HW) as HM. unfold wrap.
+  rewrite <- Zminus_mod. split.
+  - apply Z.mod_pos_bound. exact HM.
+  - apply Z.mod_le; lia.
+Qed.
+
+Definition inv (W : Z) (prev : option trig) (T : Z) (st : ustate) (c : clock) : Prop :=
+  last_trig st = wrap W T /\ 0 <= T <= true_ms c /\
   match prev with
-  | Some (t1, _, m1) => m1 = last_trig st /\ t1 / 1000 <= m1
+  | Some (t1, _, m1) => m1 = last_trig st /\ t1 / 1000 <= T
   | None => True
   end.
 
-Lemma attempt_step drift echo prev st c np :
-  (forall k, 0 <= drift k) -> inv prev st c ->
-  let a := u_attempt drift echo st c np in
+Lemma attempt_step W drift echo prev T st c np :
+  0 <= W -> (forall k, 0 <= drift k) -> inv W prev T st c ->
+  let a := u_attempt W drift echo st c np in
   let b := (a_t a, a_dur a, a_stamp a) in
   match prev with Some p => spaced p b | None => True end /\
-  forall ld hd, inv (Some b) {| last_trig := a_stamp a; last_dist := ld; has_dist := hd |} (a_clk a).
+  (forall d, a_delay a = Some d -> 1 <= d <= min_interval) /\
+  forall ld hd, inv W (Some b) (true_ms (a_clk a))
+                    {| last_trig := a_stamp a; last_dist := ld; has_dist := hd |} (a_clk a).
 Proof.
-  intros Hd [Hl Hp]. cbv zeta.
+  intros HW Hd (Hlast & Hl & Hp). cbv zeta.
   pose proof (pulse_cost_nonneg (pulse_result (echo np))) as Hc.
   pose proof (Hd (ndelay c)) as Hdk.
+  pose proof (wrapped_elapsed W (true_ms c) T HW (proj2 Hl)) as He.
   unfold u_attempt, after_backoff, backoff_delay, inv, spaced, millis, tick_us, do_delay, min_interval in *.
-  cbn [a_t a_dur a_stamp a_clk now_us ndelay last_trig].
-  destruct (last_trig st =? 0) eqn:E0; [apply Z.eqb_eq in E0|apply Z.eqb_neq in E0];
-    [|destruct (now_us c / 1000 - last_trig st <? 60) eqn:E1; [apply Z.ltb_lt in E1|apply Z.ltb_ge in E1]];
+  cbn [a_t a_dur a_stamp a_clk a_delay now_us ndelay last_trig].
+  rewrite Hlast in *.
+  set (e := wrap W (wrap W (true_ms c) - wrap W T)) in *. clearbody e.
+  set (last := wrap W T) in *. clearbody last.
+  unfold true_ms in *.
+  set (cost := pulse_cost (pulse_result (echo np))) in *. clearbody cost.
+  set (dk := drift (ndelay c)) in *. clearbody dk.
+  clear Hd Hlast HW.
+  remember (60 - e) as dl eqn:Hdl.
+  destruct (last =? 0) eqn:E0; [apply Z.eqb_eq in E0|apply Z.eqb_neq in E0];
+    [|destruct (e <? 60) eqn:E1; [apply Z.ltb_lt in E1|apply Z.ltb_ge in E1]];
     cbn [now_us ndelay];
-    set (cost := pulse_cost (pulse_result (echo np))) in *; clearbody cost;
-    set (dk := drift (ndelay c)) in *; clearbody dk;
-    set (last := last_trig st) in *; clearbody last;
     set (now := now_us c) in *; clearbody now;
     (split;
-     [ destruct prev as [[[t1 d1] m1]|]; [|exact I]; destruct Hp as [-> Hp]; intro Hne;
-       try contradiction; Z.div_mod_to_equations; lia
-     | intros _ _; split; [|split; [reflexivity|]]; Z.div_mod_to_equations; lia ]).
+     [ destruct prev as [[[t1 d1] m1]|]; [|exact I]; destruct Hp as [Hm Hp]; intro Hne;
+       Z.div_mod_to_equations; lia
+     | split;
+       [ intros d Hdd; try discriminate; injection Hdd as <-; lia
+       | intros _ _; repeat split; try reflexivity; clear Hp; Z.div_mod_to_equations; lia ] ]).
 Qed.
 
-Lemma u_loop_chain drift echo (Hd : forall k, 0 <= drift k) n : forall prev st c np,
-  inv prev st c ->
-  chain prev (trigs (r_evs (u_loop n drift echo st c np))) /\
-  inv (final prev (trigs (r_evs (u_loop n drift echo st c np))))
-      (r_st (u_loop n drift echo st c np)) (r_clk (u_loop n drift echo st c np)).
+Lemma u_loop_chain W drift echo (HW : 0 <= W) (Hd : forall k, 0 <= drift k) n : forall prev T st c np,
+  inv W prev T st c ->
+  chain prev (trigs (r_evs (u_loop W n drift echo st c np))) /\
+  exists T', inv W (final prev (trigs (r_evs (u_loop W n drift echo st c np)))) T'
+                 (r_st (u_loop W n drift echo st c np)) (r_clk (u_loop W n drift echo st c np)).
 Proof.
-  induction n as [|k IH]; intros prev st c np Hi.
-  - cbn. split; [exact I|exact Hi].
+  induction n as [|k IH]; intros prev T st c np Hi.
+  - cbn. split; [exact I|exists T; exact Hi].
   - rewrite u_loop_S. cbv zeta.
-    destruct (attempt_step drift echo prev st c np Hd Hi) as [Hs Hnext].
+    destruct (attempt_step W drift echo prev T st c np HW Hd Hi) as (Hs & _ & Hnext).
     destruct (0 <? pulse_result (echo np)).
     + cbn [r_evs r_st r_clk]. rewrite trigs_attempt. cbn [chain final fold_left].
-      split; [split; [exact Hs|exact I]|apply Hnext].
+      split; [split; [exact Hs|exact I]|eexists; apply Hnext].
     + cbn [r_evs r_st r_clk]. rewrite trigs_app, trigs_attempt. cbn [app chain final fold_left].
-      match goal with |- context [u_loop k drift echo ?s ?cc ?n] =>
-        destruct (IH (Some (a_t (u_attempt drift echo st c np), a_dur (u_attempt drift echo st c np),
-                            a_stamp (u_attempt drift echo st c np))) s cc n (Hnext _ _)) as [H1 H2] end.
+      match goal with |- context [u_loop W k drift echo ?s ?cc ?n] =>
+        destruct (IH (Some (a_t (u_attempt W drift echo st c np), a_dur (u_attempt W drift echo st c np),
+                            a_stamp (u_attempt W drift echo st c np))) _ s cc n (Hnext _ _)) as [H1 H2] end.
       split; [split; [exact Hs|exact H1]|exact H2].
 Qed.
 
-Lemma inv_gap prev st c g : 0 <= g_us g -> inv prev st c -> inv prev st (pass_gap c g).
+Lemma inv_gap W prev T st c g : 0 <= g_us g -> inv W prev T st c -> inv W prev T st (pass_gap c g).
 Proof.
-  intros Hg [Hl Hp]. split; [|exact Hp]. unfold millis, pass_gap in *. cbn [now_us].
+  intros Hg (Hlast & Hl & Hp). split; [exact Hlast|]. split; [|exact Hp].
+  unfold true_ms, pass_gap in *. cbn [now_us].
   Z.div_mod_to_equations; lia.
 Qed.
 
-Lemma u_calls_chain drift echo (Hd : forall k, 0 <= drift k) : forall gs prev st c np,
-  inv prev st c -> Forall (fun g => 0 <= g_us g) gs ->
-  chain prev (trigs (history_events (u_calls drift echo st c np gs))).
+Lemma u_calls_chain W drift echo (HW : 0 <= W) (Hd : forall k, 0 <= drift k) : forall gs prev T st c np,
+  inv W prev T st c -> Forall (fun g => 0 <= g_us g) gs ->
+  chain prev (trigs (history_events (u_calls W drift echo st c np gs))).
 Proof.
-  induction gs as [|g r IH]; intros prev st c np Hi Hg; [exact I|].
+  induction gs as [|g r IH]; intros prev T st c np Hi Hg; [exact I|].
   inversion Hg as [|g' r' Hg0 Hgr]; subst.
   cbn [u_calls history_events flat_map snd]. rewrite trigs_app.
-  destruct (u_loop_chain drift echo Hd 3 prev st (pass_gap c g) np (inv_gap _ _ _ _ Hg0 Hi)) as [H1 H2].
+  destruct (u_loop_chain W drift echo HW Hd 3 prev T st (pass_gap c g) np (inv_gap _ _ _ _ _ _ Hg0 Hi)) as [H1 [T' H2]].
   apply chain_app; [exact H1|].
-  apply IH; [exact H2|exact Hgr].
+  apply (IH _ T'); [exact H2|exact Hgr].
 Qed.
 
-Lemma backoff_history drift echo c0 gs :
-  (forall k, 0 <= drift k) -> 0 <= now_us c0 -> Forall (fun g => 0 <= g_us g) gs ->
-  all_spaced (trigs (history_events (u_calls drift echo u_init c0 0 gs))).
+Lemma init_inv W c0 : 0 <= W -> 0 <= now_us c0 -> inv W None 0 u_init c0.
 Proof.
-  intros Hd Hc Hg. apply chain_all_spaced. apply u_calls_chain; [exact Hd| |exact Hg].
-  split; [|exact I]. cbn [u_init last_trig]. unfold millis. Z.div_mod_to_equations; lia.
+  intros HW Hc. split; [|split; [|exact I]].
+  - cbn [u_init last_trig]. unfold wrap. rewrite Z.mod_0_l; [reflexivity|]. pose proof (modulus_pos W HW). lia.
+  - unfold true_ms. Z.div_mod_to_equations; lia.
 Qed.
 
-(* the stamp stored after a trigger is never before the trigger (so "stamp <> 0" is the code's
-   own notion of "the millisecond clock is running") *)
-Lemma stamp_after_trigger drift echo st c np :
-  0 <= now_us c -> (forall k, 0 <= drift k) -> 0 <= last_trig st <= millis c ->
-  let a := u_attempt drift echo st c np in a_t a / 1000 <= a_stamp a.
+Lemma backoff_history W drift echo c0 gs :
+  0 <= W -> (forall k, 0 <= drift k) -> 0 <= now_us c0 -> Forall (fun g => 0 <= g_us g) gs ->
+  all_spaced (trigs (history_events (u_calls W drift echo u_init c0 0 gs))).
 Proof.
-  intros Hc Hd Hl.
-  destruct (attempt_step drift echo None st c np Hd (conj Hl I)) as [_ H].
-  destruct (H (0 # 1)%Q false) as [_ [_ H2]]. exact H2.
+  intros HW Hd Hc Hg. apply chain_all_spaced. apply (u_calls_chain W drift echo HW Hd gs None 0); [|exact Hg].
+  apply init_inv; assumption.
+Qed.
+
+(* every back-off delay the helper issues is between 1 and 60 ms - over whole histories, across
+   the roll-over as well (the absolute-deadline variant of the test would ask for ~2^W ms) *)
+Definition delay_of (e : uev) : list Z := match e with UDelay d => [d] | UTrig _ _ _ => [] end.
+Definition delays (evs : list uev) : list Z := flat_map delay_of evs.
+
+Lemma delays_app l1 l2 : delays (l1 ++ l2) = delays l1 ++ delays l2.
+Proof. unfold delays. apply flat_map_app. Qed.
+
+Lemma delays_attempt a : delays (attempt_events a) = match a_delay a with Some d => [d] | None => [] end.
+Proof. unfold attempt_events, delays. destruct (a_delay a); reflexivity. Qed.
+
+Lemma u_loop_delays W drift echo (HW : 0 <= W) (Hd : forall k, 0 <= drift k) n : forall prev T st c np,
+  inv W prev T st c ->
+  Forall (fun d => 1 <= d <= min_interval) (delays (r_evs (u_loop W n drift echo st c np))).
+Proof.
+  induction n as [|k IH]; intros prev T st c np Hi; [constructor|].
+  rewrite u_loop_S. cbv zeta.
+  destruct (attempt_step W drift echo prev T st c np HW Hd Hi) as (_ & Hdel & Hnext).
+  assert (Ha : Forall (fun d => 1 <= d <= min_interval) (delays (attempt_events (u_attempt W drift echo st c np)))).
+  { rewrite delays_attempt. destruct (a_delay (u_attempt W drift echo st c np)) as [d|] eqn:E; [|constructor].
+    constructor; [apply Hdel; reflexivity|constructor]. }
+  destruct (0 <? pulse_result (echo np)).
+  - cbn [r_evs]. exact Ha.
+  - cbn [r_evs]. rewrite delays_app. apply Forall_app. split; [exact Ha|].
+    eapply IH. apply Hnext.
+Qed.
+
+Lemma u_calls_delays W drift echo (HW : 0 <= W) (Hd : forall k, 0 <= drift k) : forall gs prev T st c np,
+  inv W prev T st c -> Forall (fun g => 0 <= g_us g) gs ->
+  Forall (fun d => 1 <= d <= min_interval) (delays (history_events (u_calls W drift echo st c np gs))).
+Proof.
+  induction gs as [|g r IH]; intros prev T st c np Hi Hg; [constructor|].
+  inversion Hg as [|g' r' Hg0 Hgr]; subst.
+  cbn [u_calls history_events flat_map snd]. rewrite delays_app. apply Forall_app. split.
+  - eapply (u_loop_delays W drift echo HW Hd 3). apply inv_gap; [exact Hg0|exact Hi].
+  - destruct (u_loop_chain W drift echo HW Hd 3 prev T st (pass_gap c g) np (inv_gap _ _ _ _ _ _ Hg0 Hi)) as [_ [T' H2]].
+    eapply IH; [exact H2|exact Hgr].
+Qed.
+
+Lemma backoff_delays_bounded W drift echo c0 gs :
+  0 <= W -> (forall k, 0 <= drift k) -> 0 <= now_us c0 -> Forall (fun g => 0 <= g_us g) gs ->
+  Forall (fun d => 1 <= d <= min_interval) (delays (history_events (u_calls W drift echo u_init c0 0 gs))).
+Proof.
+  intros HW Hd Hc Hg. apply (u_calls_delays W drift echo HW Hd gs None 0); [|exact Hg].
+  apply init_inv; assumption.
+Qed.
+
+(* the unsigned long stored after a trigger is the wrapped true time of a moment not before the
+   trigger: "stored time = 0" (the code's own notion of "the millisecond clock is not running yet")
+   happens exactly when that true time is a multiple of 2^W *)
+Lemma stamp_after_trigger W drift echo st c np :
+  let a := u_attempt W drift echo st c np in
+  a_stamp a = wrap W (true_ms (a_clk a)) /\ a_t a / 1000 <= true_ms (a_clk a).
+Proof.
+  cbv zeta. split; [reflexivity|].
+  pose proof (pulse_cost_nonneg (pulse_result (echo np))) as Hc.
+  unfold u_attempt, true_ms, tick_us. cbn [a_t a_clk now_us].
+  set (cost := pulse_cost _) in *. clearbody cost.
+  set (x := now_us (after_backoff W drift st c)). clearbody x.
+  Z.div_mod_to_equations; lia.
+Qed.
+
+(* the "stored time <> 0" exemption re-appears at the roll-over: W = 32, start 1 ms before 2^32 ms,
+   echo 1000 us: the stored time is 2^32 mod 2^32 = 0 and the second call triggers 1 ms later *)
+Lemma backoff_rollover_zero_refuted :
+  exists (W : Z) (drift echo : nat -> Z) (c0 : clock) (gs : list gap) (t1 d1 t2 d2 m2 : Z),
+    0 <= W /\ (forall k, 0 <= drift k) /\ Forall (fun g => 0 <= g_us g) gs /\
+    trigs (history_events (u_calls W drift echo u_init c0 0 gs)) = [(t1, d1, 0); (t2, d2, m2)] /\
+    60 <= t1 / 1000 /\ t2 / 1000 - t1 / 1000 < 60.
+Proof.
+  exists 32, (fun _ => 0), (fun _ => 1000), {| now_us := (2 ^ 32 - 1) * 1000; ndelay := 0 |},
+         [{| g_us := 0; g_delays := 0 |}; {| g_us := 0; g_delays := 0 |}],
+         4294967295002, 1000, 4294967296014, 1000, 1.
+  split; [discriminate|]. split; [intros _; discriminate|].
+  split; [repeat constructor; discriminate|].
+  split; [vm_compute; reflexivity|]. split; vm_compute; [discriminate|reflexivity].
 Qed.
